@@ -65,6 +65,8 @@ def run_lifecycle(sc):
 
     def is_clean():
         extra = [t for t in threading.enumerate() if t not in base_threads and t.is_alive()]
+        if kind != 'tl' and len(notifier.listeners) != 0:
+            return False        # a stopped stack must not leave a reader registered on the user's notifier (it would keep buffering frames)
         return (not L.started and L.main_thread is None and getattr(L, 'relay_thread', 'unset') is None and L.rx_relay_queue.empty()
                 and not L.is_rx_active() and not L.transmitting() and not L.available() and L.active_send_request is None and not extra)
 
@@ -161,6 +163,20 @@ class C14(PropBase):
         a, b = gen.rand_addr_pair(rng, asym_prob=0.05)
         return {'ops': [], 'ops_list': ops, 'addrs': (a, b), 'kind': rng.choice(['tl', 'tl', 'notifier']), 'peer': rng.random() < 0.6,
                 'read_timeout': rng.choice([0.005, 0.05, 0.3]), 'bs': rng.choice([0, 2, 8]), 'stmin': rng.choice([0, 0, 2]), 'seed': rng.randrange(1 << 30)}
+
+    def enumerate(self, tier):
+        """EVERY operation sequence of length <= 2 (<= 3 in the thorough tier) on both classes, plus every sequence start,start,x,stop"""
+        import itertools
+        a = {'mode': 0, 'txid': 0x123, 'rxid': 0x456}
+        b = {'mode': 0, 'txid': 0x456, 'rxid': 0x123}
+        seqs = [list(s) for n in ((1, 2) if tier == 'quick' else (1, 2, 3)) for s in itertools.product(OPS[:9], repeat=n)]
+        seqs += [['start', 'start', x, 'stop'] for x in OPS[:9]] + [['start', 'stop', 'start', x, 'stop'] for x in OPS[:9]]
+        k = 0
+        for kind in ('tl', 'notifier'):
+            for ops in seqs:
+                k += 1
+                yield {'ops': [], 'ops_list': list(ops), 'addrs': (a, b), 'kind': kind, 'peer': kind == 'notifier' and len(ops) >= 4,
+                       'read_timeout': 0.05, 'bs': 2, 'stmin': 0, 'seed': 1000 + k}
 
     def run_impl(self, sc):
         return run_lifecycle(sc)
